@@ -520,15 +520,15 @@ func TestLayers(t *testing.T) {
 
 // StackCase: a full Ethernet/IP/transport conversation in both directions.
 type StackCase struct {
-	V6       bool   `json:"v6"`
-	Proto    string `json:"proto"` // TCP UDP SCTP UDPLite
-	MacA     []byte `json:"mac_a"`
-	MacB     []byte `json:"mac_b"`
-	IPA      []byte `json:"ip_a"`
-	IPB      []byte `json:"ip_b"`
-	PA       []byte `json:"port_a"`
-	PB       []byte `json:"port_b"`
-	Payload  []byte `json:"payload"`
+	V6      bool   `json:"v6"`
+	Proto   string `json:"proto"` // TCP UDP SCTP UDPLite
+	MacA    []byte `json:"mac_a"`
+	MacB    []byte `json:"mac_b"`
+	IPA     []byte `json:"ip_a"`
+	IPB     []byte `json:"ip_b"`
+	PA      []byte `json:"port_a"`
+	PB      []byte `json:"port_b"`
+	Payload []byte `json:"payload"`
 }
 
 func buildStack(c *StackCase, rev bool) []byte {
